@@ -74,6 +74,43 @@ func c16ProgramID(e *Env, i int, id string) *Program {
 	return p
 }
 
+// c16SharingNeighbour builds a package of the same invocation that DEPENDS ON the library
+// packages of p (as real neighbours in one module do) and mentions them in the given order, so
+// that it numbers their import names differently than p itself would. Whatever wire remembers
+// about an import path from an earlier package must not show in p's output.
+func c16SharingNeighbour(p *Program, id string, reverse bool) *Program {
+	type use struct{ path, typ string }
+	var uses []use
+	for k := 1; k < len(p.Pkgs); k++ {
+		for _, d := range p.Decls {
+			if d.Pkg == k && d.Carrier == "struct" && !d.Alias && d.TParams == 0 && d.Name != "" && d.Name[0] >= 'A' && d.Name[0] <= 'Z' {
+				uses = append(uses, use{p.ImportPath(k), d.Name})
+				break
+			}
+		}
+	}
+	if len(uses) < 2 {
+		return nil
+	}
+	if reverse {
+		for i, j := 0, len(uses)-1; i < j; i, j = i+1, j-1 {
+			uses[i], uses[j] = uses[j], uses[i]
+		}
+	}
+	var imp, fields, vals strings.Builder
+	for i, u := range uses {
+		fmt.Fprintf(&imp, "\tn%d %q\n", i, u.path)
+		fmt.Fprintf(&fields, "\tF%d n%d.%s\n", i, i, u.typ)
+		fmt.Fprintf(&vals, "wire.Value(n%d.%s{}), ", i, u.typ)
+	}
+	q := &Program{ID: id, Module: ModulePath, Extra: map[string]string{}, Feat: map[string]string{"shape": "sharing-neighbour"}, RawDriver: true}
+	q.Pkgs = []*Pkg{{Name: "app", Dir: "app"}}
+	q.Extra["0/decl.go"] = "package app\n\nimport (\n" + imp.String() + ")\n\n// Bundle holds one value of every shared library package.\ntype Bundle struct {\n" + fields.String() + "}\n"
+	q.Extra["0/wire.go"] = "//go:build wireinject\n// +build wireinject\n\npackage app\n\nimport (\n" + imp.String() + "\t\"github.com/google/wire\"\n)\n\nfunc InitBundle() Bundle {\n\twire.Build(" + vals.String() + "wire.Struct(new(Bundle), \"*\"))\n\treturn Bundle{}\n}\n"
+	q.Note = "sharing-neighbour"
+	return q
+}
+
 type layoutRun struct {
 	Name string
 	Out  []byte
@@ -145,6 +182,12 @@ func CheckC16(e *Env) int {
 		// other packages of the shared invocation: small ones, plus two programs of the same shape
 		// (same-named packages and value types) that sort before and after this one
 		others := []*Program{cliS(i % 6), cliS((i + 1) % 6), cliN(i % 2), c16ProgramID(e, i+5000, fmt.Sprintf("aa%03d", i)), c16ProgramID(e, i+7000, fmt.Sprintf("zz%03d", i))}
+		// neighbours that import p's own library packages, sorting before p
+		for k, rev := range []bool{false, true} {
+			if nb := c16SharingNeighbour(p, fmt.Sprintf("aab%03d_%d", i, k), rev); nb != nil {
+				others = append(others, nb)
+			}
+		}
 		pkgRel := filepath.Join(p.ID, p.Pkgs[0].Dir)
 		var runs []layoutRun
 		read := func(root string) ([]byte, string) {
